@@ -13,6 +13,7 @@ identity `I_s`, `dampedM s A d = mask(A) + d·I_s`, `Ds s X = max|X − I_s|`.
 Not proved here (decided on executed inputs only): rounding slack and finiteness in IEEE arithmetic, LOBPCG accuracy.
 -/
 import PrecondVerif.Lemmas.InvRoot
+import PrecondVerif.Lemmas.InvRootReal
 
 set_option linter.unusedSectionVars false
 
@@ -191,22 +192,81 @@ theorem eigh_error_is_residual [BEq α] (s : Nat) (hs : s ≠ 0) (sqrt invroot :
         (if i = j then e i * flipIx n s i else 0)) * flipIx n s j : Mat α n n) := by
   simp [eighRoot, hs, eighErr]
 
-/-- Rayleigh bound (partial): the power-iteration estimate never exceeds any `lam ≥ 0` that bounds the quadratic form,
-`xᵀ A x ≤ lam · xᵀ x` for all `x` (i.e. `lam·1 − A` positive semi-definite; for real symmetric `A` the least such `lam`
-is `λ_max(A)`).  Missing for the full `rayleigh_le_max_eig`: the identification of that bound with Mathlib's largest
-eigenvalue through the spectral theorem. -/
-theorem rayleigh_le_max_eig_partial (sqrt : α → α) (hsqrt : ∀ x, 0 ≤ x → sqrt x * sqrt x = x) (tol : α) (numIters : Nat)
+/-- Rayleigh bound in any ordered field: the power-iteration estimate never exceeds any `lam ≥ 0` that bounds the
+quadratic form, `xᵀ A x ≤ lam · xᵀ x` for all `x` (i.e. `lam·1 − A` positive semi-definite). -/
+theorem rayleigh_le_bound (sqrt : α → α) (hsqrt : ∀ x, 0 ≤ x → sqrt x * sqrt x = x) (tol : α) (numIters : Nat)
     (A : Mat α n n) (v0 : Vec α n) (lam : α) (hlam : 0 ≤ lam)
     (hmax : ∀ x : Vec α n, dot x (Mat.mulVec A x) ≤ lam * dot x x) :
     powerIteration sqrt tol numIters A v0 ≤ lam := by
   unfold powerIteration
   exact piLoop_le sqrt hsqrt tol A lam hlam hmax numIters numIters _ hlam
 
+/-- `rayleigh_le_max_eig`: for a real positive semi-definite (symmetric) matrix `A` of any size, any start vector, any
+tolerance and iteration bound, the estimate returned by the model's power iteration (with `sqrt = Real.sqrt`) is at most
+the largest eigenvalue of `A` — `⨆ i, eigenvalues i` of Mathlib's spectral decomposition (`λ_max·1 − A` is PSD by the
+spectral theorem, hence `xᵀAx ≤ λ_max xᵀx`).  Zero iterates are covered (`0/0 = 0` gives the estimate `0 ≤ λ_max`). -/
+theorem rayleigh_le_max_eig {n : Nat} (tol : ℝ) (numIters : Nat) (A : Mat ℝ n n) (v0 : Vec ℝ n)
+    (hpsd : (Matrix.of A : Matrix (Fin n) (Fin n) ℝ).PosSemidef) :
+    powerIteration Real.sqrt tol numIters A v0 ≤ ⨆ i, hpsd.1.eigenvalues i := by
+  apply rayleigh_le_bound Real.sqrt (fun x hx => Real.mul_self_sqrt hx) tol numIters A v0
+  · exact Real.iSup_nonneg fun i => hpsd.eigenvalues_nonneg i
+  · intro x
+    have h := quad_le_max_eig (Matrix.of A) hpsd.1 x
+    have e1 : dot x (Mat.mulVec A x) = x ⬝ᵥ ((Matrix.of A : Matrix (Fin n) (Fin n) ℝ) *ᵥ x) := by
+      simp only [dot, Mat.mulVec, sumFin_eq_sum, dotProduct, Matrix.mulVec, Matrix.of_apply]
+    have e2 : dot x x = x ⬝ᵥ x := by simp only [dot, sumFin_eq_sum, dotProduct]
+    rw [e1, e2]; exact h
+
 /-- the ridge is therefore never scaled by more than such a bound -/
 theorem ridge_le_of_rayleigh (eps maxEv floor lam : α) (heps : 0 ≤ eps) (h : maxEv ≤ lam) (hf : floor ≤ lam) :
     ridgeOf eps maxEv floor ≤ eps * lam := by
   unfold ridgeOf; rw [maxS_eq_max]
   exact mul_le_mul_of_nonneg_left (max_le h hf) heps
+
+/-- ext `eigh_root_perturbed` (no padding, `n ≤ s`): if the `U` handed back by `eigh` is orthogonal, the computed
+eigenvalues are `≥ d`, and the decomposition residual satisfies `|Uᵀ R U − diag e|_max ≤ η` for the regularised input
+`R = A_d`, then the model's root satisfies `|X^p · A_d − 1|_max ≤ n · η / d` — the "slack proportional to the regularised
+condition number" clause (`1/d` is the norm of `A_d⁻¹`; the constant is exactly `n`). -/
+theorem eigh_root_perturbed [BEq α] [LawfulBEq α] (s p : Nat) (hs : s ≠ 0) (hns : n ≤ s) (sqrt invroot : α → α)
+    (ridge : α) (hridge : 0 < ridge) (A U : Mat α n n) (e : Vec α n) (η : α)
+    (hU1 : (Matrix.of U : MatR α n)ᵀ * Matrix.of U = 1) (hU2 : (Matrix.of U : MatR α n) * (Matrix.of U)ᵀ = 1)
+    (hge : ∀ i : Fin n, ridge ≤ e i)
+    (hη : ∀ i j, |((Matrix.of U : MatR α n)ᵀ * dampedM s A ridge * Matrix.of U - Matrix.diagonal e) i j| ≤ η)
+    (hsqrt : ∀ x, 0 ≤ x → sqrt x * sqrt x = x) (hinv : ∀ x, 0 < x → 0 ≤ invroot x ∧ invroot x ^ p * x = 1) :
+    let X : MatR α n := Matrix.of (eighRoot s sqrt invroot ridge A U e).1
+    ∀ i j, |(X ^ p * dampedM s A ridge - 1) i j| ≤ (n : α) * η / ridge := by
+  intro X
+  have hX : X = Matrix.of (eighVal sqrt U (eighInvE s invroot ridge e)) := by
+    simp [X, eighRoot, hs]
+  rw [hX]
+  exact eigh_root_perturbed_core s p hns sqrt invroot ridge hridge U e (dampedM s A ridge) η hU1 hU2 hge hη hsqrt hinv
+
+/-- honesty of the eigh error figure (no padding): the figure the routine reports IS such an `η`, so
+`|X^p · A_d − 1|_max ≤ n · err / d` for the returned `(X, err)`. -/
+theorem eigh_error_honest [BEq α] [LawfulBEq α] (s p : Nat) (hs : s ≠ 0) (hns : n ≤ s) (sqrt invroot : α → α)
+    (ridge : α) (hridge : 0 < ridge) (A U : Mat α n n) (e : Vec α n)
+    (hU1 : (Matrix.of U : MatR α n)ᵀ * Matrix.of U = 1) (hU2 : (Matrix.of U : MatR α n) * (Matrix.of U)ᵀ = 1)
+    (hge : ∀ i : Fin n, ridge ≤ e i)
+    (hsqrt : ∀ x, 0 ≤ x → sqrt x * sqrt x = x) (hinv : ∀ x, 0 < x → 0 ≤ invroot x ∧ invroot x ^ p * x = 1) :
+    let X : MatR α n := Matrix.of (eighRoot s sqrt invroot ridge A U e).1
+    ∀ i j, |(X ^ p * dampedM s A ridge - 1) i j| ≤ (n : α) * (eighRoot s sqrt invroot ridge A U e).2 / ridge := by
+  apply eigh_root_perturbed s p hs hns sqrt invroot ridge hridge A U e _ hU1 hU2 hge _ hsqrt hinv
+  intro i j
+  have hflip : ∀ k : Fin n, (flipIx n s k : α) = 1 := by
+    intro k; unfold flipIx; rw [if_pos]; have := k.isLt; omega
+  have herr : (eighRoot s sqrt invroot ridge A U e).2 = eighErr s (regularized s A ridge) U e := by
+    simp [eighRoot, hs]
+  rw [herr]
+  have hle := le_maxAbs (fun a b => ((Mat.mul (Mat.transpose U) (Mat.mul (regularized s A ridge) U)) a b -
+      (if a = b then e a * flipIx n s a else 0)) * flipIx n s b : Mat α n n) i j
+  have hentry : ((Matrix.of U : MatR α n)ᵀ * dampedM s A ridge * Matrix.of U - Matrix.diagonal e) i j =
+      ((Mat.mul (Mat.transpose U) (Mat.mul (regularized s A ridge) U)) i j -
+      (if i = j then e i * flipIx n s i else 0)) * flipIx n s j := by
+    rw [hflip j, mul_one, hflip i, mul_one, Matrix.sub_apply, Matrix.diagonal_apply, Matrix.mul_assoc,
+      ← eigh_input_is_damped]
+    simp only [Matrix.mul_apply, Matrix.transpose_apply, Matrix.of_apply, Mat.mul, Mat.transpose, sumFin_eq_sum]
+  rw [hentry]
+  exact hle
 
 /-- hypotheses of the Newton theorems are satisfiable: `ℚ`, `p = 1` (so `rootp = id`), constants of the source -/
 example : ∃ (c : NConsts ℚ) (rootp sqrt : ℚ → ℚ), 1 < c.rmax ∧ 0 ≤ c.tol ∧ 1 ≤ c.numTries ∧
@@ -227,5 +287,23 @@ example : ∃ (U A : Mat ℚ 1 1) (e : Vec ℚ 1),
       Subsingleton.elim i j]; norm_num
   · ext i j; simp [Matrix.mul_apply, flipIx, Es, Mat.maskedId, Mat.one, Mat.ix, Subsingleton.elim i j]
   · intro i _; norm_num
+
+/-- `rayleigh_le_max_eig` applies to a non-trivial instance: the `2×2` identity is positive semi-definite -/
+example : (Matrix.of (Mat.one : Mat ℝ 2 2) : Matrix (Fin 2) (Fin 2) ℝ).PosSemidef := by
+  have h : (Matrix.of (Mat.one : Mat ℝ 2 2) : Matrix (Fin 2) (Fin 2) ℝ) = 1 := by
+    ext i j; simp [Mat.one, Matrix.one_apply]
+  rw [h]; exact Matrix.PosSemidef.one
+
+/-- the hypotheses of `eigh_root_perturbed` are satisfiable with a non-zero residual: `n = 1`, `A = (3)`, ridge `1`
+(so `A_d = (4)`), `U = (1)`, computed eigenvalue `e = 5`, `η = 1` -/
+example : ∃ (U A : Mat ℚ 1 1) (e : Vec ℚ 1) (η : ℚ),
+    (Matrix.of U : MatR ℚ 1)ᵀ * Matrix.of U = 1 ∧ (∀ i : Fin 1, (1 : ℚ) ≤ e i) ∧
+    (∀ i j, |((Matrix.of U : MatR ℚ 1)ᵀ * dampedM 1 A 1 * Matrix.of U - Matrix.diagonal e) i j| ≤ η) := by
+  refine ⟨fun _ _ => 1, fun _ _ => 3, fun _ => 5, 1, ?_, ?_, ?_⟩
+  · ext i j; simp [Matrix.mul_apply, Matrix.one_apply, Subsingleton.elim i j]
+  · intro i; norm_num
+  · intro i j
+    simp [Matrix.mul_apply, dampedM, maskM, Es, Mat.mask, Mat.maskedId, Mat.one, Mat.ix, Subsingleton.elim i j]
+    norm_num
 
 end PrecondVerif.C01
